@@ -100,6 +100,19 @@ def main(p):
     if p.get("NSBLK") not in (None, nsblk) or p.get("nrows") not in (None, N // nsblk):
         print("model is not at the shape of the available file; nothing to replay")
         return 0
+    if p["kind"] == "labels":
+        # the header must label the channels as delivered: first channel = highest frequency, negative spacing, and the
+        # delivered data of the ascending twin must be the shipped (descending) file's data
+        from astropy.io import fits as _fits
+        with _fits.open(testfile) as hd:
+            fr = np.asarray(hd["SUBINT"].data["DAT_FREQ"][0], dtype=np.float64)
+        h = f.header
+        fch1, foff = float(getattr(h.fch1, "value", h.fch1)), float(getattr(h.foff, "value", h.foff))
+        if abs(fch1 - fr.max()) > 1e-6 or abs(foff + abs(fr[1] - fr[0])) > 1e-6:
+            bad.append(f"header labels fch1={fch1}, foff={foff} but the delivered channels run from {fr.max()} downwards in steps of {abs(fr[1] - fr[0])}")
+        for b in bad:
+            print("MISMATCH:", b)
+        return 1 if bad else 0
     if p["kind"] == "read_block":
         start, nsamps = p["start"], p["nsamps"]
         inr = start >= 0 and start + nsamps <= N
